@@ -53,7 +53,7 @@ pub struct Device {
 
 use DisabledOptions::*;
 
-use crate::instruction::operation::Operation;
+use crate::instruction::{operation::Operation, register::Reg16, IndexOps, InstructionOps};
 
 impl Device {
     pub fn new(flash_size: u32) -> Self {
@@ -104,6 +104,34 @@ impl Device {
                     false
                 }
             }
+            _ => true,
+        }
+    }
+
+    /// Check addressing forms that depend on operands: X/Y pointer registers
+    /// and the `Rd, Z` / `Rd, Z+` forms of lpm and elpm
+    pub fn check_operands(&self, op: &Operation, op_args: &[InstructionOps]) -> bool {
+        match op {
+            Operation::Ld | Operation::St | Operation::Ldd | Operation::Std => {
+                op_args.iter().all(|arg| match arg {
+                    InstructionOps::Index(index) => {
+                        let reg = match index {
+                            IndexOps::None(reg)
+                            | IndexOps::PostIncrement(reg)
+                            | IndexOps::PreDecrement(reg)
+                            | IndexOps::PostIncrementE(reg, _) => reg,
+                        };
+                        match reg {
+                            Reg16::X => self.allow(NoXreg),
+                            Reg16::Y => self.allow(NoYreg),
+                            Reg16::Z => true,
+                        }
+                    }
+                    _ => true,
+                })
+            }
+            Operation::Lpm => op_args.is_empty() || self.allow(NoLpmX),
+            Operation::Elpm => op_args.is_empty() || self.allow(NoElpmX),
             _ => true,
         }
     }
